@@ -14,6 +14,10 @@ def canon(node: Any):
     if hasattr(node, "data") and hasattr(node, "children"):
         return ["T", str(node.data), [canon(c) for c in node.children]]
     if hasattr(node, "type") and isinstance(node, str):
+        value = getattr(node, "value", node)
+        if type(value) is not str or value != str(node):
+            # a lark Token whose .value (what ahbicht reads) is not its text: never the case for a token the parsers produced
+            return ["t", str(node.type), str(node), ["value", type(value).__name__, repr(value)[:80]]]
         return ["t", str(node.type), str(node)]
     if isinstance(node, str):
         return ["s", node]
@@ -25,7 +29,7 @@ def show(c, depth=0) -> str:
     if c[0] == "T":
         return c[1] + "(" + ", ".join(show(x) for x in c[2]) + ")"
     if c[0] == "t":
-        return f"{c[1]}:{c[2]}"
+        return f"{c[1]}:{c[2]}" + (f"<value {c[3][1]} {c[3][2]}>" if len(c) > 3 else "")
     return repr(c[1:])
 
 
